@@ -256,3 +256,15 @@ Proof.
     cbn in A. apply String.eqb_eq in A; subst t'.
     destruct b as [|b']; auto.
 Qed.
+
+Lemma d_at_in_dirs cs : forall n es, d_at n cs = Some (DDir es) -> In cs (d_dirs n).
+Proof.
+  induction cs as [|c cs IH]; intros n es H.
+  - cbn in H. inv H. cbn. auto.
+  - destruct n as [|es0|]; try discriminate. cbn [d_at] in H. cbn [d_dirs]. right.
+    induction es0 as [|[k x] t IHt]; [discriminate|].
+    cbn [d_lookup] in H. destruct (String.eqb k c) eqn:E.
+    + apply String.eqb_eq in E; subst k. apply in_or_app. left.
+      apply in_map. eapply IH; eauto.
+    + apply in_or_app. right. apply IHt. exact H.
+Qed.
